@@ -33,6 +33,9 @@ def rule_obj(i, name, kind):
     return ("enum", "ast::Rule::Group", {"rule": ("enum", "GroupRule", {"is_group_choice_alternate": kind == "G//=", "_name": name}), "_idx": i})
 
 
+DUP_OPAQUE = {"collect_comment_toks", "collect_container_extents", "merge", "visit_anchor_slots", "convert_rule", "position_from_ast_span"}
+
+
 def r_dup(ctx):
     rid = "C12.dup"
     ctx.rule(rid, "convert_cddl returns Err exactly when a plain `=` definition of a name follows an earlier definition (plain or /= , //=) of "
@@ -41,6 +44,8 @@ def r_dup(ctx):
     f = ctx.facts
     fi = f.fn(B, "convert_cddl")
     kinds = ["T", "G", "T/=", "G//="]
+    module_fns = {x.name: x.node for x in f.fns(B) if x.impl_self is None and not x.in_test and all(absint.default_cfg(c) for c in x.cfg)
+                  and x.name not in ("convert_rule", "position_from_ast_span")}
     n = 0
     seen_viol = set()
     for length in (0, 1, 2, 3):
@@ -71,6 +76,9 @@ def r_dup(ctx):
                         return args[0]
                 return NotImplemented
             it = Interp(env={"pairs": OPAQUE, "input": OPAQUE}, on_call=on_call)
+            # callees of convert_cddl as of the reviewed tree stay opaque (comment attachment, decided by C16); a helper that a
+            # refactoring extracts from convert_cddl is interpreted
+            it.resolve_fn = lambda nm: module_fns.get(nm) if "::" not in nm and nm not in DUP_OPAQUE else None
             key = ",".join("%s:%s" % c for c in combo) or "(empty)"
             try:
                 try:
